@@ -207,6 +207,14 @@ impl Execution {
 
         self.threads.set_active(next);
 
+        #[cfg(feature = "verif")]
+        super::verif::schedule_event(
+            path_id,
+            curr_thread.as_usize(),
+            next.map(|id| id.as_usize()),
+            &self.threads,
+        );
+
         // There is no active thread. Unless all threads have terminated, the
         // test has deadlocked.
         if !self.threads.is_active() {
